@@ -207,6 +207,67 @@ def g_case(ops, events, trace, obs, diverged):
 
 
 # ------------------------------------------------------------------------------------------------------------------
+def diamond_ops(rng):
+    """Multi-path family: y reaches v over a short path (one edge, weight S) and over a longer but tighter path
+    (k+1 edges, total L < S); v has a successor w.  All stored weights are >= 0, so all distances are 0 until the trigger
+    x - y <= b (b very negative) lowers y: the breadth-first propagation then lowers v twice (first to d[y]+S, later to
+    d[y]+L) and the second lowering has to reach w again.  A closing edge w -> x makes the network inconsistent exactly when
+    the cycle over the LONG path is negative; in the inconsistent variant the cycle over the short path is not negative.
+    Returns (events, ops, expected_consistent_per_network)."""
+    scale = rng.choice([1, 1, 2, 3, Fraction(1, 2), Fraction(1, 3), Fraction(3, 2), Fraction(2, 3), Fraction(5, 4)])
+    k = rng.randint(1, 2)
+    nev = 4 + k + rng.randint(0, 1 if k == 1 else 0)
+    perm = list(range(nev))
+    rng.shuffle(perm)
+    y, v, w, x = perm[0], perm[1], perm[2], perm[3]
+    mids = perm[4:4 + k]
+    lw = [rng.randint(0, 2) for _ in range(k + 1)]
+    L = sum(lw)
+    S = L + rng.randint(1, 4)
+    c = rng.randint(0, 2)
+    b = -(S + c + rng.randint(2, 6))
+    chain = [y] + mids + [v]
+    long_edges = [(chain[i], chain[i + 1], lw[i]) for i in range(k + 1)]
+    first_long, other_long = long_edges[0], long_edges[1:]
+    rng.shuffle(other_long)
+    short = (y, v, S)
+    succ = [(v, w, c)]
+    if nev > 4 + k:                                           # a second successor, behind w
+        succ.append((w, perm[4 + k], rng.randint(0, 2)))
+    # y's neighbour list is scanned newest first: the short edge is inserted after y's first long edge in 80 % of the cases,
+    # so that v is lowered over the short path before the long path reaches it
+    pre = [first_long] + other_long + succ
+    rng.shuffle(pre)
+    if rng.random() < 0.8:
+        pre.insert(rng.randint(pre.index(first_long) + 1, len(pre)), short)
+    else:
+        pre.insert(rng.randint(0, pre.index(first_long)), short)
+    variant = rng.choice(["consistent", "inconsistent", "open"])
+    lo, hi = -(b + S + c), -(b + L + c)                       # closing weight c2: short cycle >= 0 iff c2 >= lo; long cycle >= 0 iff c2 >= hi
+    closing = None
+    if variant == "consistent":
+        closing = (w, x, hi + rng.randint(0, 2))
+    elif variant == "inconsistent":
+        closing = (w, x, rng.randint(lo, hi - 1))
+    trigger = (x, y, b)
+    sc = lambda e: (e[0], e[1], e[2] * scale)
+    ops = [("new", 0)] + [("add", 0) + sc(e) for e in pre]
+    tail = [trigger] + ([closing] if closing else [])
+    if closing and rng.random() < 0.5:
+        tail.reverse()                                        # closing edge first: the trigger's own propagation must detect the cycle
+    nnet = 1
+    if rng.random() < 0.5:                                    # the same tail on the original and on a copy taken before it
+        ops.append(("copy", 0))
+        nnet = 2
+        ops += [("add", 1) + sc(e) for e in tail]
+        if rng.random() < 0.5:
+            ops += [("add", 0) + sc(e) for e in tail]
+    else:
+        ops += [("add", 0) + sc(e) for e in tail]
+    return list(range(nev)), ops, nnet, variant
+
+
+# ------------------------------------------------------------------------------------------------------------------
 EV3 = [0, 1, 2]
 
 
@@ -346,38 +407,47 @@ def run(ctx):
                 Fraction(7, 4), Fraction(-1, 4), 0, 1, 2, -1, 3, Fraction(5, 2)],
         "pos": [0, 1, 2, 3, Fraction(1, 2), Fraction(5, 2), 4, 6, -1, Fraction(-1, 2)],
     }
-    for h in range(n_hist):
+    n_diamond = 200 if ctx.quick else 2000
+    dist["diamond_histories"] = {"consistent": 0, "inconsistent": 0, "open": 0}
+    for h in range(n_diamond + n_hist):
         if dist["diverged"] >= 6:
             break
-        nev = rng.randint(2, 6)
-        events = list(range(nev))
-        eps = 0
-        if rng.random() < 0.12:
-            eps = rng.choice([Fraction(1, 10), Fraction(1, 2), 1])
-            dist["eps_nonzero_histories"] += 1
-        pool = pools[rng.choice(["int", "rat", "rat", "pos"])]
-        nops = rng.randint(5, 45)
-        ops = [("new", eps)]
-        nnet = 1
-        nadd = 0
-        for _ in range(nops):
-            r = rng.random()
-            if r < 0.10 and nnet < 6:
-                ops.append(("copy", rng.randrange(nnet)))
-                nnet += 1
-            elif r < 0.12 and nnet < 6:
-                ops.append(("new", eps))
-                nnet += 1
-            elif nadd < 40:
-                x, y = rng.randrange(nev), rng.randrange(nev)
-                if rng.random() < 0.85:
-                    while y == x and nev > 1:
-                        y = rng.randrange(nev)
-                b = rng.choice(pool)
-                if isinstance(b, Fraction) and b.denominator != 1:
-                    dist["rational_bounds"] += 1
-                ops.append(("add", rng.randrange(nnet) if rng.random() < 0.5 else nnet - 1, x, y, b))
-                nadd += 1
+        if h < n_diamond:
+            eps = 0
+            events, ops, nnet, variant = diamond_ops(rng)
+            nadd = sum(1 for o in ops if o[0] == "add")
+            dist["diamond_histories"][variant] += 1
+            dist["rational_bounds"] += sum(1 for o in ops if o[0] == "add" and Fraction(o[4]).denominator != 1)
+        else:
+            nev = rng.randint(2, 6)
+            events = list(range(nev))
+            eps = 0
+            if rng.random() < 0.12:
+                eps = rng.choice([Fraction(1, 10), Fraction(1, 2), 1])
+                dist["eps_nonzero_histories"] += 1
+            pool = pools[rng.choice(["int", "rat", "rat", "pos"])]
+            nops = rng.randint(5, 45)
+            ops = [("new", eps)]
+            nnet = 1
+            nadd = 0
+            for _ in range(nops):
+                r = rng.random()
+                if r < 0.10 and nnet < 6:
+                    ops.append(("copy", rng.randrange(nnet)))
+                    nnet += 1
+                elif r < 0.12 and nnet < 6:
+                    ops.append(("new", eps))
+                    nnet += 1
+                elif nadd < 40:
+                    x, y = rng.randrange(nev), rng.randrange(nev)
+                    if rng.random() < 0.85:
+                        while y == x and nev > 1:
+                            y = rng.randrange(nev)
+                    b = rng.choice(pool)
+                    if isinstance(b, Fraction) and b.denominator != 1:
+                        dist["rational_bounds"] += 1
+                    ops.append(("add", rng.randrange(nnet) if rng.random() < 0.5 else nnet - 1, x, y, b))
+                    nadd += 1
         heap, lineage, trace, obs, diverged, error = run_history(ops, events)
         dist["histories"] += 1
         dist["ops"] += len(ops)
@@ -398,7 +468,7 @@ def run(ctx):
         if nadd >= 5:
             nontrivial.add(json.dumps(rec["ops"]))
 
-    bad = coq_failing_2(ctx, cases, "ok", 175 if ctx.quick else 320, imports=IMPORTS, timeout=1700)
+    bad = coq_failing_2(ctx, cases, "ok", 275 if ctx.quick else 350, imports=IMPORTS, timeout=1700)
     shown = 0
     for i in bad:
         rec, heap, lineage, eps, diverged = raw[i]
